@@ -7,9 +7,9 @@ func init() {
 		explain: "the real And/Or/Majority/Split/Inverse/NoLoss/StopLoss Compute pipelines run over stub strategies that replay symbolic action words (bit-vector actions constrained to {-1,0,1}) and symbolic positive closings / stop-loss percentage; the solver decides, per path, whether the emitted action can differ from the position-wise specification restated in the harness, and whether a No-Loss sell below the purchase close or a missed stop is possible",
 		bounds: func(t string) string {
 			if t == "thorough" {
-				return "k<=4 wrapped strategies, n<=5 snapshots (n<=6 for decorators), nestings NoLoss(StopLoss), Inverse(NoLoss), And(Or(x,y),z) with n<=4"
+				return "k<=4 wrapped strategies, n<=5 snapshots (k<=7 at n=1), (n<=6 for decorators), nestings NoLoss(StopLoss), Inverse(NoLoss), And(Or(x,y),z) with n<=4"
 			}
-			return "k<=3 wrapped strategies with k*n<=9, n<=4 snapshots (n<=5 for decorators), nestings with n<=3"
+			return "k<=3 wrapped strategies with k*n<=9, n<=4 snapshots; k<=7 at n=1 and k=4 at n<=2 for the vote thresholds; (n<=5 for decorators), nestings with n<=3"
 		},
 		outside:     "longer action words; MACD-RSI's combiner is checked over its real sub-strategies in C06 (its fields are concrete strategy types, so arbitrary words cannot be injected); stop-loss percentage outside [0,1)",
 		assumptions: append([]string{realModeNote, "closings are positive reals; stop-loss percentage in [0,1)", "oracle: vote / decorator models in harness/h/c07_c08.go"}, commonAssumptions...),
@@ -23,6 +23,21 @@ func init() {
 				for k := 1; k <= maxK; k++ {
 					for n := 0; n <= maxN; n++ {
 						if k*n > 9 && tier != "thorough" || k*n > 16 {
+							continue
+						}
+						c := cs("H_C07_Vote", kind, k, n)
+						c.MaxPaths = 60000
+						c.Weight = pow3(n) * k
+						out = append(out, c)
+					}
+				}
+			}
+			// larger electorates at one or two positions: voting thresholds that depend on k
+			// (plurality vs absolute majority differ from k = 4 on)
+			for k := maxK + 1; k <= 7; k++ {
+				for kind := 0; kind <= 2; kind++ {
+					for n := 1; n <= 2; n++ {
+						if n == 2 && (k > 4 || kind != 2) {
 							continue
 						}
 						c := cs("H_C07_Vote", kind, k, n)
